@@ -82,6 +82,31 @@ def race_case(npts=6000000, threads=16):
     return worst
 
 
+def threads_disjoint_case(seed):
+    """at most one point per bin: no two iterations touch the same cell, so every thread count must give
+    the exact histogram (independent of the data race on shared bins)"""
+    import numba
+    import numpy as np
+    from osyris.plot.utils import hist2d
+
+    rng = np.random.default_rng(seed)
+    nx, ny = int(rng.integers(3, 12)), int(rng.integers(3, 12))
+    cells = rng.permutation(nx * ny)[: int(rng.integers(1, nx * ny + 1))]
+    x = (cells % nx + 0.5) / nx
+    y = (cells // nx + 0.5) / ny
+    values = rng.integers(1, 9, size=(2, len(cells))).astype(float)
+    eo, ec = floor_bin_oracle(np, x, y, values, 0.0, 1.0, nx, 0.0, 1.0, ny)
+    for th in (2, 3, 4, 7, 16):
+        numba.set_num_threads(min(th, numba.config.NUMBA_NUM_THREADS))
+        out, counts = hist2d(x, y, values, 0.0, 1.0, nx, 0.0, 1.0, ny)
+        if not np.array_equal(counts, ec) or not np.array_equal(out, eo):
+            numba.set_num_threads(numba.config.NUMBA_NUM_THREADS)
+            return {"what": "%d threads, %d points in distinct bins: counts add up to %s, not %d" % (th, len(cells), counts.sum(), len(cells)),
+                    "input": {"seed": seed, "points": int(len(cells)), "threads": th}}
+    numba.set_num_threads(numba.config.NUMBA_NUM_THREADS)
+    return None
+
+
 def replay_hist2d(case, model, rec):
     for s in range(120):
         r = hist2d_case(1000 + s)
@@ -202,6 +227,12 @@ def sweep_c05(tier, seed):
                 r["input"]["threads"] = threads
                 viol.append({"name": name, "input": r["input"], "observed": r["what"]})
                 break
+    for s in range(20 if tier == "quick" else 300):
+        cases += 1
+        r = threads_disjoint_case(seed * 31 + s)
+        if r:
+            viol.append({"name": "C05.native.threads_distinct_bins", "input": r["input"], "observed": r["what"]})
+            break
     r = race_case(npts=6000000 if tier == "quick" else 30000000)
     cases += 1
     if r:
@@ -365,6 +396,16 @@ def sweep_c18(tier, seed):
         if bad:
             viol.append({"name": "C18.native.basis", "input": {"normal": v.tolist()}, "observed": bad})
             break
+    # axis-aligned normals of small (not underflowing) length
+    for ex in (1e-3, 1e-9, 1e-12, 1e-30, 1e30):
+        for v in ([0.0, 0.0, ex], [0.0, ex, 0.0], [ex, 0.0, 0.0], [0.0, 0.0, -ex], [ex, ex, 0.0]):
+            cases += 1
+            with np.errstate(all="ignore"):
+                b = VectorBasis(n=Vector(*v, unit="m"))
+                bad = basis_errors(np, b, want_n=v, right_handed=True)
+            if bad:
+                viol.append({"name": "C18.native.axis_aligned_small", "input": {"normal": v}, "observed": bad[:3]})
+                break
     # magnitudes: tiny / huge components (overflow and underflow of intermediates)
     for ex in (1e-300, 1e-200, 1e-160, 1e-100, 1e-30, 1e30, 1e100, 1e160, 1e200):
         for v in ([1.0, 0.0, ex], [ex, 1.0, 1.0], [1.0, ex, 0.0], [ex, ex, ex], [1.0, 1.0, ex]):
